@@ -4562,7 +4562,12 @@ class ParameterizedMetaclass(type):
             type.__setattr__(mcs,attribute_name,value)
 
             if isinstance(value,Parameter):
-                mcs.__param_inheritance(attribute_name,value)
+                # Same as add_parameter: name the Parameter, merge it with the
+                # ancestors' and drop the cached params() of the class and
+                # its subclasses
+                mcs._initialize_parameter(attribute_name,value)
+                for kls in descendents(mcs):
+                    kls._param__private.params.clear()
 
     def __param_inheritance(mcs, param_name, param):
         """
